@@ -510,6 +510,44 @@ def s10(ctx, rid, only_sync=True):
         raise core.AnchorLost('worker functions that spawn a background task: %d' % n)
 
 
+def s11(ctx, rid):
+    """the sync trigger is level-triggered: whether a sync is requested after an append depends only on the current dirty-byte
+    count, the configured limit and the in-progress flag.  A trigger that also looks at how many bytes *this* operation added
+    (edge-triggered: "only the operation that crosses the limit") never fires again once the blob is over the limit while a
+    sync is in flight, and the un-synced bytes then grow without bound."""
+    prog = ctx.prog
+    trig = prog.fns.get('storage::core::Inner::<K>::should_try_fsync')
+    if trig is None:
+        raise core.AnchorLost('should_try_fsync')
+    lv = core.decision_leaves(prog, trig)
+    args = sorted(v for k, v in lv if k == 'arg')
+    fields = {v for k, v in lv if k == 'field'}
+    calls = {v for k, v in lv if k == 'call'}
+    extra_f = fields - {'config', 'max_dirty_bytes_before_sync', 'fsync_in_progress', 'inner', 'blob'}
+    extra_c = calls - {'load', 'max_dirty_bytes_before_sync', 'config'}
+    key = 'level-triggered|%s' % trig.id
+    if len(args) == 1 and not extra_f and not extra_c:
+        ctx.ok(rid, key, trig.where(), 'the decision depends on {%s}, the configured limit and the in-progress flag only' % args[0])
+    else:
+        ctx.bad(rid, key, trig.where(), 'the decision whether to request a sync depends on %s besides the dirty-byte count, the limit and the in-progress flag: it is not a function of the current level, so being over the limit does not by itself lead to a sync' % sorted(set(args[1:]) | extra_f | extra_c))
+    # every caller feeds the single scalar argument from the file's dirty-byte counter
+    n = 0
+    for c in core.call_sites_of(prog, trig.id):
+        if c.name == 'poll':
+            continue
+        n += 1
+        k2 = 'fed-by-dirty-bytes|%s' % prog.fns[c.fn.id].root
+        ok = False
+        for a in c.args[1:2]:
+            names = core.field_leaf_names(c.fn, a)
+            ogs = core.origins_deep(prog, c.fn, a, depth=2)
+            if names == {'dirty_bytes'} or any(o.kind == 'call' and o.data.name == 'dirty_bytes' for o in ogs):
+                ok = True
+        (ctx.ok if ok else ctx.bad)(rid, k2, c.where(), 'argument is the dirty-byte count of the active blob file' if ok else 'the level handed to the sync trigger is not the dirty-byte count of the active blob file')
+    if n < 2:
+        raise core.AnchorLost('callers of should_try_fsync: %d' % n)
+
+
 RULES = [
     Rule('C12.S1', 'every ok-return of the blob constructor is preceded by the header append and then a completed ok file sync', s1, 2),
     Rule('C12.S2', 'every index dump / index-file construction call is dominated by an ok sync of the blob file (in the function or in every caller)', s2, 3),
@@ -521,5 +559,6 @@ RULES = [
     Rule('C12.S7', 'in index construction the written-flag rewrite follows the ok body append and is followed by an ok sync', s7, 1),
     Rule('C12.S9', 'sync requests to the worker are sent with the waiting send, never dropped when the queue is full (C13.L9 instances)', s9, 1),
     Rule('C12.S10', 'the worker skips starting the sync task only while a sync task is really running (decided by JoinHandle::is_finished)', s10, 1),
+    Rule('C12.S11', 'the sync trigger is a function of the current dirty-byte level, the limit and the in-progress flag only (level-triggered)', s11, 3),
     Rule('C12.S8', 'every boolean in-progress / request-pending flag that was set is released on every exit (drop guard or explicit clear on all paths): the sync it guards is never suppressed for ever', s8, 1),
 ]
